@@ -157,7 +157,7 @@ CDivMod(op, l, r) ==
         ELSE IF op = "cmod" THEN Res("double", FALSE, TruncRem(Q(l), Q(r)))
         ELSE IF ~QuotDecided(Q(l), Q(r)) THEN Pr("nondyadic")
         ELSE WithFl(Res("double", FALSE, QuotQ(Q(l), Q(r))),
-                    IF QuotQ(Q(l), Q(r)) % 4 # 0 THEN {"cdiv_double_frac"} ELSE {}))      \* where Shadow.cdiv truncates (known)
+                    IF ShCdivQ(Q(l), Q(r)) # QuotQ(Q(l), Q(r)) THEN {"cdiv_double_dev"} ELSE {}))   \* where Shadow.cdiv deviates (known)
   ELSE IF r.v = 0 THEN Pr("c-div-zero")
   ELSE Res(Arith(l.t, r.t), FALSE, IF op = "cdiv" THEN TruncDiv(l.v, r.v) ELSE TruncRem(l.v, r.v))
 
@@ -236,7 +236,7 @@ WFProg(pr) ==
   /\ \A n \in {"a", "b", "x", "y", "i"} : pr.types[n] \in CTypes
   /\ pr.types["i"] \in IntTypes
   /\ pr.ret \in CTypes \cup {"object"}
-  /\ (pr.kind = "def") = (pr.ret = "object")
+  /\ (pr.ret = "object") = (pr.kind = "def" \/ (pr.kind = "cmeth" /\ pr.mkind = "def"))
   /\ WFBlock(pr.body, pr.hashelper, 2)
   /\ pr.hashelper => (pr.helper.ptypes[1] \in CTypes /\ pr.helper.ptypes[2] \in CTypes /\ pr.helper.ret \in CTypes
                       /\ WFExpr(pr.helper.body, {"p", "q"}, 4))
@@ -274,7 +274,7 @@ InitDM == \E k \in (IF Wide THEN {"i"} ELSE {"i", "d"}), o \in {"cdiv", "cmod"} 
             /\ LET row == DMRow(k, o, a) IN m = [row |-> row, devs |-> {b \in DOMAIN row : DMShadow(k, o, a, b) # row[b]}]
 DMDevs == m.devs
 
-RefSound == Part = "divmod" /\ c.kind = "i" =>
+RefSound == Part = "divmod" /\ c.kind = "i" /\ c.op = "cdiv" =>
               \A b \in DMDom("i") \ {0} : /\ IsTruncPair(TruncDiv(c.a, b), TruncRem(c.a, b), c.a, b)
                                           /\ (MulOv(FloorDiv(c.a, b), b) \/ IsFloorPair(FloorDiv(c.a, b), PyMod(c.a, b), c.a, b))
 \* Shadow.cdiv / Shadow.cmod equal C semantics on every integer pair ...
@@ -283,7 +283,8 @@ ShadowIntAgrees == Part = "divmod" /\ c.kind = "i" => DMDevs = {}
 \* integer ceil-division trick `(a + b + 1) // b` to floats: known deviation; the cells are published as `devs`)
 ShadowDblCharacterised == Part = "divmod" /\ c.kind = "d" =>
               IF c.op = "cmod" THEN DMDevs = {} ELSE \A b \in DOMAIN m.row : m.row[b] % 4 # 0 => b \in DMDevs
-PublishDM == (Dump /\ Part = "divmod") => PrintT("@@" \o ToJson([kind |-> c.kind, op |-> c.op, a |-> c.a, row |-> m.row, devs |-> DMDevs]))
+PublishDM == (Dump /\ Part = "divmod") => PrintT("@@" \o ToJson([kind |-> c.kind, op |-> c.op, a |-> c.a, row |-> m.row, devs |-> DMDevs,
+                                                                    sh |-> IF c.kind = "d" THEN [b \in DOMAIN m.row |-> DMShadow(c.kind, c.op, c.a, b)] ELSE <<>>]))
 
 (* ---- cast ---- *)
 CSrcs == {[form |-> "c", t |-> t] : t \in CTypes} \cup {[form |-> "py", t |-> "long"], [form |-> "py", t |-> "bint"]}
@@ -306,12 +307,14 @@ PublishCast == (Dump /\ Part = "cast") => PrintT("@@" \o ToJson([T |-> c.T, form
 Progs == IF Part = "prog" THEN ndJsonDeserialize(IOEnv.C38_PROGS) ELSE <<>>
 NoOut == [st |-> "", vals |-> <<>>, why |-> ""]
 Out(st, vals, why) == [st |-> st, vals |-> vals, why |-> why]
-P == Progs[c.pid]
+P == c.prog
 
-InitProg == \E pid \in 1..Len(Progs) :
-               \E av \in ProgGrid(Progs[pid].types["a"]), bv \in ProgGrid(Progs[pid].types["b"]) :
-                 /\ c = [pid |-> pid, a |-> av, b |-> bv]
-                 /\ m = [env |-> [n \in Vars |-> Unset], todo |-> <<<<"bind">>>> \o Progs[pid].body, out |-> NoOut, fl |-> {}, steps |-> 0]
+InitProg == LET ps == Progs IN
+            \E pid \in 1..Len(ps) :
+               LET pr == ps[pid] IN
+               \E av \in ProgGrid(pr.types["a"]), bv \in ProgGrid(pr.types["b"]) :
+                 /\ c = [pid |-> pid, a |-> av, b |-> bv, prog |-> pr]
+                 /\ m = [env |-> [n \in Vars |-> Unset], todo |-> <<<<"bind">>>> \o pr.body, out |-> NoOut, fl |-> {}, steps |-> 0]
 
 Running == Part = "prog" /\ m.out = NoOut
 AtStmt  == Running /\ m.todo # <<>>
@@ -357,11 +360,11 @@ Return == AtStmt /\ Cur[1] = "ret" /\
              ELSE Stop(Out("ok", [j \in 1..Len(rs) |-> [k |-> rs[j].k, v |-> rs[j].v]], ""), fls)
 FallOff == Running /\ m.todo = <<>> /\ Stop(Out("pruned", <<>>, "no-return"), {})
 
-NextProg == Bind \/ Assign \/ Declare \/ Branch \/ EnterFor \/ ForNext \/ Return \/ FallOff
 
 -----------------------------------------------------------------------------
+Idle == Part # "prog" /\ UNCHANGED vars
 Init == CASE Part = "divmod" -> InitDM [] Part = "cast" -> InitCast [] Part = "prog" -> InitProg
-Next == IF Part = "prog" THEN NextProg ELSE UNCHANGED vars
+Next == Bind \/ Assign \/ Declare \/ Branch \/ EnterFor \/ ForNext \/ Return \/ FallOff \/ Idle
 Spec == Init /\ [][Next]_vars
 
 ProgsWellFormed == Part = "prog" /\ m.steps = 0 => WFProg(P)
